@@ -143,6 +143,7 @@ pub fn replay(input: &str, output: &str) {
     let mut r = rng(2020);
     let mut evals = 0u64;
     let mut nontrivial = 0u64;
+    let mut last_valid: Option<(String, Option<[String; 6]>, Option<([f64; 7], [i8; 6], Joints, Joints)>)> = None;
     for (id, line) in lines.iter().enumerate() {
         let sp = make_spec(line, &mut r);
         let (xml, names) = render(line, &sp, &mut r);
@@ -157,6 +158,8 @@ pub fn replay(input: &str, output: &str) {
         let raw: Option<[String; 6]> = if names.is_some() { None } else { Some(joint_names(line["naming"].as_str().unwrap(), "lf")) };
         let other_first = if id % 4 == 1 && line["copies"] != "second-robot" { Some(extract(&xml, &raw)) } else { None };
         let main = extract(&xml, &names);
+        let key_of = |g: &Got| -> Option<([f64; 7], [i8; 6], Joints, Joints)> { if let Got::Ok(p) = g { Some(([p.a1, p.a2, p.b, p.c1, p.c2, p.c3, p.c4], p.sign_corrections, p.from, p.to)) } else { None } };
+        let main_key = key_of(&main);
         let other_after = if id % 4 == 3 && line["copies"] != "second-robot" { Some(extract(&xml, &raw)) } else { None };
         if names.is_none() {
             // (explicit names must find the same robot)
@@ -260,6 +263,19 @@ pub fn replay(input: &str, output: &str) {
             faults.push(("short-xyz", xml.replacen("<origin xyz=\"0 0 0.33\"", "<origin xyz=\"0 0\"", 1)));
             faults.push(("non-numeric-xyz", xml.replacen("<origin xyz=\"0 0 0.33\"", "<origin xyz=\"a b c\"", 1)));
             faults.push(("bad-limit", xml.replacen("lower=\"", "lower=\"abc", 1)));
+            // (an origin with two numbers late in the document: the reader has collected most joints when it gives up)
+            {
+                let at: Vec<usize> = xml.match_indices("<origin xyz=\"").map(|m| m.0 + 13).collect();
+                if at.len() >= 3 {
+                    let a = at[at.len() - 2];
+                    if let Some(e) = xml[a..].find('"') {
+                        let two: Vec<&str> = xml[a..a + e].split_whitespace().take(2).collect();
+                        let mut x = xml.clone();
+                        x.replace_range(a..a + e, &two.join(" "));
+                        faults.push(("short-xyz-late", x));
+                    }
+                }
+            }
             faults.push(("empty", String::new()));
             faults.push(("not-xml", "joint1 joint2".to_string()));
             if line["copies"] == "identical-duplicate" {
@@ -292,8 +308,17 @@ pub fn replay(input: &str, output: &str) {
                     Got::Ok(_) if must_err => out.put(json!({"sig": format!("urdf:faulty-description-accepted:{}", name), "detail": format!("{}", &text[..text.len().min(300)])})),
                     _ => {}
                 }
+                // another (the preceding line's) valid description read right after the faulty one means what it meant
+                // when it was read the first time
+                if let Some((pxml, pnames, pkey)) = &last_valid {
+                    evals += 1;
+                    if key_of(&extract(pxml, pnames)) != *pkey {
+                        out.put(json!({"sig": "urdf:valid-description-misread-after-a-faulty-one", "detail": format!("after the variant {} of: {}", name, desc)}));
+                    }
+                }
             }
         }
+        if main_key.is_some() { last_valid = Some((xml.clone(), names.clone(), main_key)); }
         if id == 100 { out.put(json!({"sample": {"layout": class, "syntax": syn, "origins": line["origins"], "xml_first_lines": xml.lines().take(14).collect::<Vec<_>>()}})); }
     }
     out.put(json!({"stats": {"lines": lines.len(), "evaluations": evals, "nontrivial": nontrivial}}));
